@@ -493,16 +493,21 @@ theorem repS_of_repSub {s : Store} {tc : PT} {n : WN} {t : PT} (h : Rep H (fun x
 
 /-! ### 6. `Commit(collapseLevel)` -/
 
-/-- clean root: only the pending queue is moved -/
+/-- clean root: the pending queue is moved; when there were pending changes (the root is the clean empty node after the
+    deletion of every key) the list of created nodes is emptied, otherwise it is kept -/
 theorem commit_clean_eq (collapse : Int) (t : WT) (hd : t.root.dirty = false) :
-    (commit H t collapse).1 = { t with tempDeleted := t.tempDeleted ++ t.pending, pending := [] } ∧
+    (commit H t collapse).1 = { t with tempDeleted := t.tempDeleted ++ t.pending, pending := [],
+                                        created := if t.pending.isEmpty then t.created else [] } ∧
     (commit H t collapse).2 = [] := by
-  simp [commit, hd]
+  simp only [commit, hd, Bool.not_false, if_true, and_true]
+  cases t.pending.isEmpty <;> rfl
 
 theorem gc_commit_pending (collapse : Int) (t : WT) : (commit H t collapse).1.pending = [] := by
   unfold commit
   simp only
-  split <;> rfl
+  split
+  · split <;> rfl
+  · rfl
 
 /-- dirty root: the queues after `Commit`, in terms of the created list `cr` and the superseded list `sup` of the run -/
 theorem commit_dirty_queues (hlen : ∀ x, (H x).length = 32) (collapse : Int) (t : WT) {ts : PT}
